@@ -11,34 +11,40 @@
 (*   - sum over leaves of W(leaf, v) = 2^f * TrueWeight(v), exactly, where *)
 (*     TrueWeight(v) is computed here from the logged stream: the rank     *)
 (*     estimate averaged over all outcomes equals the true rank.           *)
+(* `choices` (default 1) is the number of equally likely outcome sequences  *)
+(* of randomness that is not the coin (the stride offsets of the classic   *)
+(* down-sampling merge, enumerated by seeding random_utils::rand): the     *)
+(* leaves are then all 2^f * choices combinations.                         *)
 (* Stream values are D tokens (only compared); weights are integers and    *)
 (* every sum stays below 2^31 (2^16 leaves x n <= 400).                    *)
 (***************************************************************************)
 EXTENDS TraceCommon
-VARIABLES f, stream, probes, accLe, accLt, leaves
-tvars == <<l, f, stream, probes, accLe, accLt, leaves>>
+VARIABLES f, choices, stream, probes, accLe, accLt, leaves
+tvars == <<l, f, choices, stream, probes, accLe, accLt, leaves>>
 
 TrueWeight(v, incl) == Cardinality({j \in DOMAIN stream : IF incl THEN stream[j] <= v ELSE stream[j] < v})
 
 TBegin == IsEvent("Begin") /\ LET e == Log[l] IN
             /\ Chk("harness:stream-length", Len(e.stream) = e.n /\ e.f >= 0 /\ e.f <= 16)
+            /\ choices' = (IF Has(e, "choices") THEN e.choices ELSE 1)
             /\ f' = e.f /\ stream' = e.stream /\ probes' = e.probes /\ leaves' = 0
             /\ accLe' = [i \in DOMAIN e.probes |-> 0] /\ accLt' = [i \in DOMAIN e.probes |-> 0]
 TLeaf == IsEvent("Leaf") /\ LET e == Log[l] IN
             /\ Chk("flip-count-independent-of-outcomes", e.flips = f)
             /\ Chk("n", e.n = Len(stream))
             /\ Chk("rank-is-weight/n", e.exact)
-            /\ Chk("harness:coin-string-order", e.coins = leaves)
+            /\ Chk("harness:leaf-order", e.leaf = leaves /\ e.coins = leaves % 2^f)
+            /\ Chk("non-coin-randomness-drawn-as-enumerated", e.drawsok)
             /\ accLe' = [i \in DOMAIN probes |-> accLe[i] + e.le[i]]
             /\ accLt' = [i \in DOMAIN probes |-> accLt[i] + e.lt[i]]
-            /\ leaves' = leaves + 1 /\ UNCHANGED <<f, stream, probes>>
+            /\ leaves' = leaves + 1 /\ UNCHANGED <<f, choices, stream, probes>>
 TVerdict == IsEvent("Verdict") /\ LET e == Log[l] IN
-            /\ Chk("all-coin-strings", leaves = 2^f /\ e.leaves = 2^f)
+            /\ Chk("all-coin-strings", leaves = 2^f * choices /\ e.leaves = leaves)
             /\ \A i \in DOMAIN probes :
-                 /\ Chk("unbiased-inclusive-rank", accLe[i] = 2^f * TrueWeight(probes[i], TRUE))
-                 /\ Chk("unbiased-exclusive-rank", accLt[i] = 2^f * TrueWeight(probes[i], FALSE))
-            /\ UNCHANGED <<f, stream, probes, accLe, accLt, leaves>>
-TInit == l = 1 /\ f = 0 /\ stream = <<>> /\ probes = <<>> /\ accLe = <<>> /\ accLt = <<>> /\ leaves = 0
+                 /\ Chk("unbiased-inclusive-rank", accLe[i] = leaves * TrueWeight(probes[i], TRUE))
+                 /\ Chk("unbiased-exclusive-rank", accLt[i] = leaves * TrueWeight(probes[i], FALSE))
+            /\ UNCHANGED <<f, choices, stream, probes, accLe, accLt, leaves>>
+TInit == l = 1 /\ f = 0 /\ choices = 1 /\ stream = <<>> /\ probes = <<>> /\ accLe = <<>> /\ accLt = <<>> /\ leaves = 0
 TNext == TBegin \/ TLeaf \/ TVerdict
 TSpec == TInit /\ [][TNext]_tvars
 ====
